@@ -75,7 +75,7 @@ def rand_pack(rng, cls=None, allow_iterative=True, allow_prefix_ver=True, allow_
     o["inferral"] = inf
     layouts = ["initial", "initial", "sets"] + (["same"] if allow_same else [])
     o["layout"] = rng.choice(layouts)
-    o["factory"] = rng.choice((None, None, None, None, None, 0, 1, 2, 3, 4, 5))
+    o["factory"] = rng.choice((None, None, None, None, None, 0, 1, 2, 3, 4, 5, 6, 6))
     has_stats = bool(cls and cls["stats"])
     vers = ["stat", "stat", "stat"]
     if not has_stats:
@@ -92,6 +92,10 @@ def rand_pack(rng, cls=None, allow_iterative=True, allow_prefix_ver=True, allow_
     # not carry some of the parent's statistics
     o["merge"] = rng.random() < 0.3
     o["dead"] = rng.random() < 0.35
+    if o["ver"].startswith("prefix") and rng.random() < 0.3:
+        # one verification strategy object verifying several classes and counting each of them
+        # through the library's defaults: a fresh search with the offered pack per request
+        o["ver"] = "searched" + o["ver"][6:]
     return o
 
 
@@ -136,5 +140,13 @@ def rand_search_case(rng, **kw):
     cls = rand_class(rng, **{k: v for k, v in kw.items() if k in ("max_alpha", "max_prefix", "max_stats", "bytes_p", "pairs")})
     pack = rand_pack(rng, cls, **{k: v for k, v in kw.items()
                                   if k in ("allow_iterative", "allow_prefix_ver", "allow_one_way", "allow_same")})
-    return {"cls": cls, "pack": pack, "db": rand_db(rng),
+    case = {"cls": cls, "pack": pack, "db": rand_db(rng),
             "expand_verified": rng.random() < 0.15}
+    if pack.get("factory") == 6:
+        # classes expanded from above only: specifications need rules read backwards (forest
+        # database), most often for start classes with a prefix
+        if rng.random() < 0.7:
+            case["db"] = "forest"
+        if not cls["prefix"] and not cls["just_prefix"] and rng.random() < 0.7:
+            cls["prefix"] = "".join(rng.choice(cls["alphabet"]) for _ in range(rng.choice((1, 1, 2))))
+    return case
